@@ -34,6 +34,7 @@ type Obligation struct {
 }
 
 type Engine struct {
+	nilBytes *Region // backing of the empty byte string that stands for nil slices in DER predicates
 	prog     *ssa.Program
 	pkgs     map[string]*ssa.Package
 	db       *SpecDB
@@ -2163,6 +2164,9 @@ func (e *Engine) guarded(st *State, f func() []Exit) (out []Exit) {
 				panic(r)
 			}
 			if e.unsatisfiable(hyps) {
+				if os.Getenv("VCGO_TRACE") != "" {
+					fmt.Fprintf(os.Stderr, "[trace] %s: path dropped after engine error on an unsatisfiable path: %s\n", e.curFunc, ee.msg)
+				}
 				out = nil
 				return
 			}
